@@ -188,6 +188,8 @@ def _two_gen_fields(ex):
     return d
 
 
+from contracts.parsing import DICT as DICT_     # noqa
+_NAMES_KEPT_ = "forall(old(len(self.names)), lambda i: at_entry_kept(self.names, old(snap(self.names)), i))"
 _ANI = "((%(f)s.final and not %(f)s.no_default) or (%(f)s.no_input is True))"
 _ANO = "(%(f)s.no_output is True)"
 _REQ = "((not options_.ignore_required) and (%(f)s.required is True) and not " + _ANI + ")"
@@ -197,8 +199,15 @@ _REQ = "((not options_.ignore_required) and (%(f)s.required is True) and not " +
 class GEN_FIELD:
     """interface: no entry (None) exactly for the fields that never take input (input schema) /
     never appear in the output (output schema) under the given options; otherwise a schema dict"""
-    cases = {"input": dict(self=Rec("JsonSchemaGenerator", output=FALSE), f=Rec("ParserField"), options=Rec("Options", mode=NONE)),
-             "output": dict(self=Rec("JsonSchemaGenerator", output=TRUE), f=Rec("ParserField"), options=Rec("Options", mode=NONE))}
+    cases = {"input": dict(self=Rec("JsonSchemaGenerator", output=FALSE, defs=NONE), f=Rec("ParserField"), options=Rec("Options", mode=NONE)),
+             "output": dict(self=Rec("JsonSchemaGenerator", output=TRUE, defs=NONE), f=Rec("ParserField"), options=Rec("Options", mode=NONE)),
+             "input,registry": dict(self=Rec("JsonSchemaGenerator", output=FALSE, defs=DICT_, names=DICT_), f=Rec("ParserField"),
+                                    options=Rec("Options", mode=NONE)),
+             "output,registry": dict(self=Rec("JsonSchemaGenerator", output=TRUE, defs=DICT_, names=DICT_), f=Rec("ParserField"),
+                                     options=Rec("Options", mode=NONE))}
+    # with a registry the types of the field are published through set_def (the only writer: audit
+    # C13_registry_written_only_by_set_def), whose proved postcondition keeps every earlier name bound to its type
+    modifies_by_case = {"input,registry": ["self.names", "self.defs"], "output,registry": ["self.names", "self.defs"]}
 
     @staticmethod
     def result(ex, fr):
@@ -207,7 +216,11 @@ class GEN_FIELD:
         from contracts.parsing import DICT
         return DICT.fresh(ex, "field_schema!%d" % next(ex.counter))
     returns_by_case = {"input": {"none_iff_never_input": "(result is None) == %s" % (_ANI % {"f": "f"})},
-                       "output": {"none_iff_never_output": "(result is None) == %s" % (_ANO % {"f": "f"})}}
+                       "output": {"none_iff_never_output": "(result is None) == %s" % (_ANO % {"f": "f"})},
+                       "input,registry": {"none_iff_never_input": "(result is None) == %s" % (_ANI % {"f": "f"}),
+                                          "definitions_are_only_added": _NAMES_KEPT_},
+                       "output,registry": {"none_iff_never_output": "(result is None) == %s" % (_ANO % {"f": "f"}),
+                                           "definitions_are_only_added": _NAMES_KEPT_}}
     only_raises = ["Exception"]
     trusted = ("interface: the two guards at the top of generate_for_field call always_no_output / always_no_input (proved "
                "against the documented tables under C05) and return None (audit C13_field_guards); the rest builds annotations")
@@ -245,10 +258,32 @@ def _gd_cases():
                 self=Rec("JsonSchemaGenerator", output=od, defs=NONE),
                 t=Rec("DataClassType", __parser__=Rec("DataClassParser", fields=Const(_two_gen_fields, name="2 fields"),
                                                      options=Rec("Options", mode=NONE, addition=ad, ignore_required=BOOL))))
+    for on, od in (("input", FALSE), ("output", TRUE)):
+        out["%s,addition-none,registry" % on] = dict(
+            self=Rec("JsonSchemaGenerator", output=od, defs=DICT_, names=_NamesLater()),
+            t=Rec("DataClassType", __parser__=Rec("DataClassParser", fields=Const(_two_gen_fields, name="2 fields"),
+                                                 options=Rec("Options", mode=NONE, addition=NONE, ignore_required=BOOL))))
     return out
 
 
+class _NamesLater(Desc):
+    """the names table (defined with the registry contracts below)"""
+    name = "dict[str, type]"
+
+    def fresh(self, ex, pname):
+        return NAMES.fresh(ex, pname)
+
+    def accepts(self, v):
+        return NAMES.accepts(v)
+
+
 def _gd_post(case):
+    if case.endswith(",registry"):
+        # with a registry the object schema goes to $defs and a reference is returned: it must name THIS class's definition
+        return {"a_reference_is_returned": "is_reference(result, self.ref_prefix)",
+                "the_reference_names_the_definition_of_this_class": "value_at(self.names, ref_target(result, self.ref_prefix), t)",
+                "the_class_has_a_definition": "has_key(self.defs, t)",
+                "earlier_names_keep_their_types": _NAMES_KEPT_}
     on, an = case.split(",")
     opt = "t.__parser__.options"
     d = {"is_an_object_schema": "schema_val_is(result, 'type', 'object')"}
@@ -316,8 +351,186 @@ class GEN_DATACLASS:
     cases = _gd_cases()
     returns_by_case = {cn: _gd_post(cn) for cn in _gd_cases()}
     only_raises = ["Exception"]
+    evaluate_fstrings = True
+    modifies = ["self.names", "self.defs"]
+    replay = "gen_dataclass_registry"      # registry cases: the model's entry state of (defs, names) with real data classes
+    replay_entry_state = True
+
+    @staticmethod
+    def setup(ex, frame):
+        self_ = frame.env["self"]
+        if isinstance(self_.fields.get("names"), VMap):
+            # REPRESENTATION INVARIANT of the registry, assumed on entry (established by __init__: both tables empty; kept by
+            # set_def, the only writer: its postconditions the_name_is_bound_to_this_type / earlier_names_keep_their_types /
+            # names_stay_nonempty): a type with a definition slot has a name, and names are not empty
+            fr = frame
+            ex.assume(ex.spec_bool("implies(has_key(self.defs, t), named(self.names, t))", fr, {}))
+            ex.assume(ex.spec_bool("all_names_nonempty(self.names)", fr, {}))
+            ex.assume(ex.spec_bool("len(t.__parser__.name) > 0", fr, {}))
     assumes = ["BOUNDED: the loop over parser.fields is unrolled for a class with exactly two declared fields",
-               "no $defs registry (self.defs is None), no mode, no dependencies, no annotations"]
+               "no mode, no dependencies, no annotations; $defs registry: cases *,registry",
+               "registry cases: the representation invariant of (defs, names) holds on entry -- every type with a definition slot has "
+               "a name, names are non-empty (kept by set_def, proved there; established by __init__, not verified) -- and the class has a "
+               "non-empty name"]
+
+
+# ------------------------------------------------------------------------------------ the $defs registry (C13)
+# With a shared registry (`defs={}`) a data class is published once under a de-duplicated name and every use of it is
+# a {"$ref": prefix + name}.  "Every value the parser produces validates against the output schema" then needs the
+# reference to name the definition of THAT class: two different classes may carry the same qualified name.
+
+from contracts.parsing import DICT_WF as _TM   # noqa: a dict as an invariant-carrying structure (distinct keys)
+
+
+class _ClassValued(type(_TM)):
+    """names: dict[str, type] -- distinct str keys; the values are classes"""
+    name = "dict[str, type]"
+
+    def fresh(self, ex, pname):
+        m = type(_TM).fresh(self, ex, pname)
+        ex.assume(ex.forall(0, m.n, lambda i: z3.And(
+            z3.Select(m.keys, i) == sym.box_str(sym.unbox_str(z3.Select(m.keys, i))), z3.Select(m.keys, i) != sym.NONE,
+            sym.ty(z3.Select(m.keys, i)) == ex.world.classes.of_py(str).t,
+            sym.sub(sym.ty(z3.Select(m.vals, i)), ex.world.classes.of_py(type).t))))
+        return m
+
+
+NAMES = _ClassValued()
+
+
+class _ClassObject(type(Cls(name="t"))):
+    """a class: verified as a symbolic class value; call sites may pass a data class (modelled as a record of its parser)"""
+
+    def accepts(self, v):
+        return isinstance(v, VCls) or (isinstance(v, VRec) and v.model is not None and v.model.name == "Schema")
+
+
+CLASS_OBJECT = _ClassObject(name="t")
+from contracts.parsing import DICT as _DEFS     # noqa: defs: dict[type, schema-or-None]
+_REG = dict(defs=_DEFS, names=NAMES)
+_NAMES_KEPT = "forall(old(len(self.names)), lambda i: at_entry_kept(self.names, old(snap(self.names)), i))"
+
+
+@specfn("ref_target")
+def _ref_target(ex, fr, schema, prefix):
+    """the definition name a {"$ref": prefix + name} schema points at (the text after the prefix)"""
+    e = _entry(ex, schema, "$ref")
+    if e is None or not isinstance(e[1], VStr):
+        raise Unsupported("schema has no literal '$ref' entry with a str value")
+    ref = e[1].t
+    return VStr(z3.SubString(ref, z3.Length(prefix.t), z3.Length(ref) - z3.Length(prefix.t)))
+
+
+@specfn("is_reference")
+def _is_reference(ex, fr, schema, prefix):
+    e = _entry(ex, schema, "$ref") if isinstance(schema, VDict) else None
+    if e is None or not isinstance(e[1], VStr):
+        return VBool(False)
+    return VBool(z3.And(e[0], z3.PrefixOf(prefix.t, e[1].t), z3.BoolVal(len(schema.items) == 1)))
+
+
+@specfn("named")
+def _named(ex, fr, names, t):
+    """some name is bound to this type"""
+    tb = ex.box(t)
+    return VBool(ex.exists(0, names.n, lambda i: z3.Select(names.vals, i) == tb))
+
+
+@specfn("entry_value_is")
+def _entry_value_is(ex, fr, names, j, t):
+    jt = j.t if isinstance(j, VInt) else z3.IntVal(j)
+    return VBool(z3.Select(names.vals, jt) == ex.box(t))
+
+
+@specfn("all_names_nonempty")
+def _all_names_nonempty(ex, fr, names):
+    return VBool(ex.forall(0, names.n, lambda i: z3.Length(sym.unbox_str(z3.Select(names.keys, i))) > 0))
+
+
+@contract(G, "JsonSchemaGenerator.set_def", props=["C13"])
+class SET_DEF:
+    """the registry operation: the name handed back is bound to THIS type; a type not seen before gets a name no other
+    type holds (de-duplicated by a numeric suffix); no earlier binding is lost or rebound.  For a type already registered
+    the caller passes the name it was registered under (precondition): the call site in generate_for_dataclass that
+    publishes the finished definition must therefore use the name the first, reserving call returned."""
+    cases = {"any": dict(self=Rec("JsonSchemaGenerator", **_REG), name=STR, t=CLASS_OBJECT, data=OBJ)}
+    requires = {"a_registered_type_is_addressed_by_its_own_name": "implies(has_key(self.defs, t), value_at(self.names, name, t))",
+                "the_proposed_name_is_not_empty": "len(name) > 0"}
+    result = STR
+    returns = {"the_name_is_bound_to_this_type": "value_at(self.names, result, t)",
+               "the_type_has_a_definition_slot": "has_key(self.defs, t)",
+               "a_new_type_gets_an_unused_name": "implies(not old(has_key(self.defs, t)), not has_str_key(old(snap(self.names)), result))",
+               "registered_type_keeps_its_name": "implies(old(has_key(self.defs, t)), result == name)",
+               "a_free_name_is_used_as_it_is": "implies(not old(has_key(self.defs, t)) and not old(has_str_key(self.names, name)), result == name)",
+               "earlier_names_keep_their_types": _NAMES_KEPT,
+               "names_stay_nonempty": "implies(old(all_names_nonempty(self.names)), all_names_nonempty(self.names))"}
+    loops = {0: dict(invariant={"names_untouched": "same_map(self.names, old(snap(self.names)))",
+                                "defs_untouched": "same_map(self.defs, old(snap(self.defs)))", "counter": "n >= 0",
+                                "the_proposed_name_stays_nonempty": "len(name) > 0", "the_proposed_name_is_kept_until_the_exit": "name == old(name)",
+                                "a_free_name_needs_no_suffix": "implies(not old(has_str_key(self.names, name)), n == 0)"},
+                     termination_assumed="`while True` leaves at the first free candidate name, name_1, name_2, ...: there is one because "
+                                         "self.names is finite (pigeonhole over the injective suffixes; not expressed)")}
+    only_raises = []
+    modifies = ["self.names", "self.defs"]
+    assumes = ["f'_{n}' is an opaque text (the proof needs only that the candidate that leaves the loop is not a key of self.names)"]
+
+
+@contract(G, "JsonSchemaGenerator.get_def_name", props=["C13"])
+class GET_DEF_NAME:
+    """look-up by type: a name is returned only if it is bound to this type; an unregistered type has none"""
+    cases = {"any": dict(self=Rec("JsonSchemaGenerator", **_REG), t=CLASS_OBJECT)}
+
+    @staticmethod
+    def result(ex, fr):
+        # a key of self.names (a str), or None
+        if ex.choose([z3.BoolVal(True), z3.BoolVal(True)]) == 0:
+            return VNone()
+        return VStr(ex.fresh("def_name", S))
+    returns = {"a_returned_name_is_bound_to_this_type": "implies(result is not None, has_key(self.defs, t) and value_at(self.names, result, t))",
+               "unregistered_has_no_name": "implies(not has_key(self.defs, t), result is None)",
+               "a_registered_and_named_type_gets_a_name": "implies(has_key(self.defs, t) and named(self.names, t), result is not None)"}
+    loops = {0: dict(invariant={"no_earlier_name_is_bound_to_this_type": "forall(_k, lambda j: not entry_value_is(self.names, j, t))"})}
+    only_raises = []
+
+
+@audit("C13_registry_written_only_by_set_def", props=["C13"])
+def _registry_writers():
+    """frame of the registry, syntactically: inside JsonSchemaGenerator, self.names and self.defs are assigned only in
+    __init__ and stored into / deleted from / mutated by method call only in set_def.  (This is what the interface
+    `definitions are only added` of generate_for_field -- which recurses into the generators -- rests on, together with
+    set_def's proved postcondition `earlier_names_keep_their_types`.)"""
+    src = open(os.path.join(REPO, G)).read()
+    tree = ast.parse(src)
+    rows, bad = [], []
+    cls = [n for n in tree.body if isinstance(n, ast.ClassDef) and n.name == "JsonSchemaGenerator"]
+    if not cls:
+        return [("class_found", False, "JsonSchemaGenerator not found")]
+
+    def is_reg(e):
+        return isinstance(e, ast.Attribute) and e.attr in ("names", "defs") and isinstance(e.value, ast.Name) and e.value.id == "self"
+    MUT = {"pop", "popitem", "clear", "update", "setdefault", "__setitem__", "__delitem__"}
+    for fn in cls[0].body:
+        if not isinstance(fn, (ast.FunctionDef, ast.AsyncFunctionDef)):
+            continue
+        for n in ast.walk(fn):
+            tg = []
+            if isinstance(n, ast.Assign):
+                tg = n.targets
+            elif isinstance(n, (ast.AugAssign, ast.AnnAssign)):
+                tg = [n.target]
+            elif isinstance(n, ast.Delete):
+                tg = n.targets
+            for t in tg:
+                for sub in ast.walk(t):
+                    if is_reg(sub) and fn.name != "__init__" and sub is t:
+                        bad.append("%s: rebinds self.%s (line %d)" % (fn.name, sub.attr, n.lineno))
+                    if isinstance(sub, ast.Subscript) and is_reg(sub.value) and fn.name != "set_def":
+                        bad.append("%s: stores into self.%s (line %d)" % (fn.name, sub.value.attr, n.lineno))
+            if isinstance(n, ast.Call) and isinstance(n.func, ast.Attribute) and n.func.attr in MUT and is_reg(n.func.value) \
+                    and fn.name != "set_def":
+                bad.append("%s: self.%s.%s(...) (line %d)" % (fn.name, n.func.value.attr, n.func.attr, n.lineno))
+    rows.append(("only_set_def_writes_the_registry", not bad, "; ".join(bad) or "no other writer of self.names / self.defs in JsonSchemaGenerator"))
+    return rows
 
 
 # ------------------------------------------------------------------------------------ JsonSchemaParser.parse_type (C15)
